@@ -378,3 +378,35 @@ func longReplEntries(r *lib.Rng, thorough bool) []longEntry {
 	}
 	return out
 }
+
+// ---- every short sequence of tokens as a complete text ---------------------------------------
+// One spelling per token kind the parser's look-aheads distinguish ('{' look-ahead: string, raw string, symbol
+// with colon, comments, '}', "for"; -Inf look-ahead: sign and Inf; dotted pair: backslash; reader prefixes).
+// A look-ahead that asks for one token too many (or too few) shows at the END of a text, so these sequences are
+// parsed as whole texts (and cut everywhere when short).
+var tokenSpellings = []string{"{", "}", "(", ")", "[", "]", "\"s\"", "`r`", "k:", "a", ":", "/* c */", "// c\n", "for", "%", "-", "Inf", "\\", "1", ","}
+var tokenSpellingsBrace = []string{"{", "}", "\"s\"", "`r`", "k:", ":", "/* c */", "// c\n", "for", "a", "("}
+
+func tokenSequences(alpha []string, maxLen int, f func(string)) {
+	var rec func(prefix string, left int)
+	rec = func(prefix string, left int) {
+		if prefix != "" {
+			f(prefix)
+		}
+		if left == 0 {
+			return
+		}
+		for _, t := range alpha {
+			sep := " "
+			if prefix == "" {
+				sep = ""
+			}
+			rec(prefix+sep+t, left-1)
+			if prefix != "" && left == 1 {
+				// also without the blank (adjacent tokens), once per pair at the last position
+				rec(prefix+t, left-1)
+			}
+		}
+	}
+	rec("", maxLen)
+}
